@@ -44,17 +44,20 @@ IGrdSeq == << Lt(N(0), X),                               \* 0 < x
               Lt(Minus(Minus(X, Y), N(1)), N(0)),        \* (x - y) - 1 < 0
               Or(Eq(X, N(0)), Eq(Y, N(0))),
               Lt(X, N(2)) >>
-IAssSeq == << True,
+\* (the literal `true` is avoided in the integer pools: expr.Const(True).convert_hol does not return a HOL term --
+\*  imperative/expr.py rebinds the name `true` -- so get_lines raises on every condition containing it)
+IAssSeq == << Le(X, N(2)),                               \* x <= 2   (implied by the box: the "no information" assertion)
               Le(N(0), X),                               \* 0 <= x
               Eq(X, N(0)),
-              Not(And(Lt(X, N(0)), Lt(Y, N(0)))),        \* ~(x < 0 & y < 0)
               Imp(Imp(Lt(X, N(1)), Lt(Y, N(1))), Eq(X, Y)),     \* (x < 1 --> y < 1) --> x == y
+              Not(And(Lt(X, N(0)), Lt(Y, N(0)))),        \* ~(x < 0 & y < 0)
               Le(Minus(X, Minus(Y, N(1))), N(2)),        \* x - (y - 1) <= 2
               Lt(Y, X),
               Or(Eq(X, N(0)), Eq(Y, N(0))),
               Eq(Plus(X, Y), N(2)),
               Le(Plus(Times(X, Y), N(1)), N(2)) >>       \* (x * y) + 1 <= 2
 IBox == BoxCond(IntLo, IntHi, TRUE)
+IBoxed(a) == IF a = True THEN IBox ELSE BoxedWith(IntLo, IntHi, TRUE, a)
 \* ---------------------------------------------------------------- natural-number pools (imperative/imp.py)
 NAsgSeq == << Asg("x", Plus(X, N(1))),
               Asg("y", Plus(Y, X)),
@@ -65,40 +68,43 @@ NAsgSeq == << Asg("x", Plus(X, N(1))),
 NGrdSeq == << Ne(X, N(3)), Eq(X, Y), Ne(X, Y), Lt(X, N(2)), And(Ne(X, N(2)), Eq(Y, N(0))), Eq(Y, N(0)) >>
 NAssSeq == << True, Eq(X, N(3)), Le(X, Y), Eq(Plus(X, Y), N(3)), Not(Eq(X, N(0))), Le(Times(X, Y), N(2)) >>
 NBox == BoxCond(NatLo, NatHi, FALSE)
+NBoxed(a) == IF a = True THEN NBox ELSE BoxedWith(NatLo, NatHi, FALSE, a)
 
 \* ---------------------------------------------------------------- program universe
 Progs(asgs, grds, anns) ==
   LET Base == asgs \cup {Skip}
       A3 == { a \in asgs : \E i \in 1..3 : a = IAsgSeq[i] \/ a = NAsgSeq[i] } \cup {Skip}     \* small pool for inner positions
       A1 == { a \in asgs : a = IAsgSeq[1] \/ a = NAsgSeq[1] } \cup {Skip}
+      G1 == { g \in grds : g = IGrdSeq[1] \/ g = NGrdSeq[1] }
       G2 == { g \in grds : \E i \in 1..2 : g = IGrdSeq[i] \/ g = NGrdSeq[i] }
       Seqs == { SeqC(a, b) : a \in asgs, b \in asgs }
       Ifs == { If(g, a, b) : g \in grds, a \in A3, b \in A3 }
       Wh1 == { While(g, i, b) : g \in grds, i \in anns, b \in asgs }
-      Wh2 == { While(g, i, SeqC(a, b)) : g \in G2, i \in anns, a \in A3 \ {Skip}, b \in A3 \ {Skip} }
+      Wh2 == { While(g, i, SeqC(a, b)) : g \in G2, i \in anns, a \in A3 \ {Skip}, b \in A1 \ {Skip} }
       SeqWh == { SeqC(a, While(g, i, b)) : a \in A3 \ {Skip}, g \in G2, i \in anns, b \in A3 \ {Skip} }
       WhIf == { While(g, i, If(h, a, Skip)) : g \in G2, h \in G2, i \in anns, a \in A3 \ {Skip} }
-      IfWh == { If(h, While(g, i, a), b) : h \in G2, g \in G2, i \in anns, a \in A3 \ {Skip}, b \in A1 }
+      IfWh == { If(h, While(g, i, a), b) : h \in G2, g \in G1, i \in anns, a \in A3 \ {Skip}, b \in A1 }
       \* nesting 3 (and 4 when Deep)
-      N3 == { SeqC(a, While(g, i, SeqC(b, If(h, a, Skip)))) : a \in A3 \ {Skip}, b \in A3 \ {Skip}, g \in G2, h \in G2, i \in anns }
-            \cup { While(g, i, SeqC(a, While(h, j, b))) : g \in G2, h \in G2, i \in anns, j \in anns, a \in A1 \ {Skip}, b \in A3 \ {Skip} }
+      N3 == { SeqC(a, While(g, i, SeqC(b, If(h, a, Skip)))) : a \in A3 \ {Skip}, b \in A3 \ {Skip}, g \in G2, h \in G1, i \in anns }
+            \cup { While(g, i, SeqC(a, While(h, j, b))) : g \in G2, h \in G1, i \in anns, j \in anns, a \in A1 \ {Skip}, b \in A3 \ {Skip} }
       N4 == IF Deep THEN { SeqC(w, If(h, SeqC(a, b), Skip)) : w \in Wh1, h \in G2, a \in A3 \ {Skip}, b \in A3 \ {Skip} }
                           \cup { If(h, SeqC(a, While(g, i, If(h, b, Skip))), b) : h \in G2, g \in G2, i \in anns, a \in A3 \ {Skip}, b \in A3 \ {Skip} }
             ELSE {}
   IN Base \cup Seqs \cup Ifs \cup Wh1 \cup Wh2 \cup SeqWh \cup WhIf \cup IfWh \cup N3 \cup N4
-Boxed(bx, a) == <<"and", bx, a>>
-IAnn == { Boxed(IBox, a) : a \in Take(IAssSeq, NAnn) }
-NAnn2 == { Boxed(NBox, a) : a \in Take(NAssSeq, NAnn) }
+IAnn == { IBoxed(a) : a \in Take(IAssSeq, NAnn) }
+NAnn2 == { NBoxed(a) : a \in Take(NAssSeq, NAnn) }
 IProgs == Progs(Take(IAsgSeq, NAsg), Take(IGrdSeq, NGrd), IAnn)
 NProgs == Progs(Take(NAsgSeq, NAsg), Take(NGrdSeq, NGrd), NAnn2)
 Trip(d, c, P, Q) == [dom |-> d, prog |-> c, pre |-> P, post |-> Q]
-ITriples == { Trip("int", c, Boxed(IBox, P), Q) : c \in IProgs, P \in Take(IAssSeq, NPre), Q \in Take(IAssSeq, NPost) }
-NTriples == { Trip("nat", c, Boxed(NBox, P), Q) : c \in NProgs, P \in Take(NAssSeq, NPre), Q \in Take(NAssSeq, NPost) }
+ITriples == { Trip("int", c, IBoxed(P), Q) : c \in IProgs, P \in Take(IAssSeq, NPre), Q \in Take(IAssSeq, NPost) }
+NTriples == { Trip("nat", c, NBoxed(P), Q) : c \in NProgs, P \in Take(NAssSeq, NPre), Q \in Take(NAssSeq, NPost) }
 BoxD(d) == IF d = "int" THEN BoxOf(IntLo, IntHi) ELSE BoxOf(NatLo, NatHi)
 RefHold(t) == \A vc \in RefVCs(t.pre, t.prog, t.post) : HoldsOn(vc, BoxD(t.dom))
 RefGuarded(t) == \A vc \in RefVCs(t.pre, t.prog, t.post) :
                     Guarded(vc, IF t.dom = "int" THEN IntLo ELSE NatLo, IF t.dom = "int" THEN IntHi ELSE NatHi, t.dom = "int")
-Valid == { t \in ITriples \cup NTriples : RefHold(t) }
+\* the universe, each triple flagged with the reference verdict "all conditions hold" (an input-selection hint for
+\* the driver's sampling of natural-number triples; verdicts on events are computed by the trace specification)
+Flagged == { [t |-> t, valid |-> RefHold(t)] : t \in ITriples \cup NTriples }
 
 \* ---------------------------------------------------------------- the machine
 VARIABLES trip, s0, kont, s, st
@@ -112,13 +118,14 @@ EqGuards(c) == CASE c[1] \in {"skip", "asg"} -> TRUE
                  [] c[1] = "if" -> c[2][1] \in {"==", "!="} /\ EqGuards(c[3]) /\ EqGuards(c[4])
                  [] c[1] = "while" -> c[2][1] \in {"==", "!="} /\ EqGuards(c[4])
 SemVectors == UNION { { [prog |-> c, s0 |-> s0_] : s0_ \in { s1 \in BoxOf(0, 2) : Run(c, s1)[1] = "ok" } } : c \in { c \in NProgs : EqGuards(c) } }
-Emit == /\ LET vs == SetToSeq(ITriples \cup NTriples) IN ndJsonSerialize(IOEnv.VECTOR_FILE, vs)
-        /\ ndJsonSerialize(IOEnv.VECTOR_FILE_SEM, SetToSeq(SemVectors))
-        /\ PrintT(<<"C20stats", Cardinality(ITriples), Cardinality(NTriples), Cardinality(Valid),
-                    Cardinality({ t \in Valid : IsLoop(t.prog) /\ t.post # True }),
-                    Cardinality({ t \in Valid : t.dom = "nat" }), Cardinality(SemVectors)>>)
-Init == \/ /\ st = "emit" /\ trip = Dummy /\ s0 = ZeroStore /\ s = ZeroStore /\ kont = <<>> /\ Emit
-        \/ /\ st = "run" /\ trip \in Valid /\ s0 \in BoxD(trip.dom) /\ EvalB(trip.pre, s0)
+Emit(all) == /\ LET vs == SetToSeq({ [dom |-> f.t.dom, prog |-> f.t.prog, pre |-> f.t.pre, post |-> f.t.post, valid |-> f.valid] : f \in all })
+                  IN ndJsonSerialize(IOEnv.VECTOR_FILE, vs)
+             /\ ndJsonSerialize(IOEnv.VECTOR_FILE_SEM, SetToSeq(SemVectors))
+             /\ PrintT(<<"C20stats", Cardinality(ITriples), Cardinality(NTriples), Cardinality(SemVectors),
+                         Cardinality({ f \in all : f.valid }), Cardinality({ f \in all : f.valid /\ IsLoop(f.t.prog) })>>)
+Init == LET all == Flagged IN
+        \/ /\ st = "emit" /\ trip = Dummy /\ s0 = ZeroStore /\ s = ZeroStore /\ kont = <<>> /\ Emit(all)
+        \/ /\ st = "run" /\ trip \in { f.t : f \in { g \in all : g.valid } } /\ s0 \in BoxD(trip.dom) /\ EvalB(trip.pre, s0)
            /\ s = s0 /\ kont = <<trip.prog>>
 Step == /\ st = "run"
         /\ IF Len(kont) = 0 THEN st' = "done" /\ UNCHANGED <<kont, s>>
